@@ -423,3 +423,64 @@ Proof.
   induction l as [|w l IH]; simpl; intro H; [constructor|]. inversion H; subst.
   apply word_insert_sorted; [rewrite sort_words_In; assumption|apply IH; assumption].
 Qed.
+
+(* ---------- the sorted row is a canonical form: rows with the same lookup function have the same signature ---------- *)
+Definition key_lt (e e' : nat * word) : Prop := fst e < fst e'.
+
+Lemma row_insert_sorted e l : ~ In (fst e) (map fst l) -> StronglySorted key_lt l -> StronglySorted key_lt (row_insert e l).
+Proof.
+  induction l as [|e' l IH]; simpl; intros Hn Hs; [constructor; [constructor|constructor]|].
+  inversion Hs as [|? ? Hs' Hf]; subst. rewrite Forall_forall in Hf. destruct (Nat.leb (fst e) (fst e')) eqn:E.
+  - apply Nat.leb_le in E. assert (Hlt : key_lt e e') by (unfold key_lt; lia).
+    constructor; [exact Hs|]. constructor; [exact Hlt|]. apply Forall_forall. intros z Hz.
+    specialize (Hf z Hz). unfold key_lt in *. lia.
+  - apply Nat.leb_gt in E. constructor; [apply IH; [tauto|exact Hs']|].
+    apply Forall_forall. intros z Hz. apply (proj1 (row_insert_In _ _ _)) in Hz. destruct Hz as [->|Hz]; [exact E|apply Hf; exact Hz].
+Qed.
+
+Lemma sort_row_sorted l : NoDup (map fst l) -> StronglySorted key_lt (sort_row l).
+Proof.
+  induction l as [|e l IH]; simpl; intro H; [constructor|]. inversion H; subst.
+  apply row_insert_sorted; [|apply IH; assumption].
+  intro Hi. apply H2. apply in_map_iff in Hi. destruct Hi as [z [Ez Hi]]. apply (proj1 (sort_row_In _ _)) in Hi.
+  rewrite <- Ez. apply in_map. exact Hi.
+Qed.
+
+Lemma sort_row_ext r1 r2 : NoDup (map fst r1) -> NoDup (map fst r2) ->
+  (forall a, assoc a r1 = assoc a r2) -> sort_row r1 = sort_row r2.
+Proof.
+  intros H1 H2 He. apply (SSorted_ext key_lt).
+  - unfold key_lt. intros; lia.
+  - apply sort_row_sorted; exact H1.
+  - apply sort_row_sorted; exact H2.
+  - intros [a t]. rewrite !sort_row_In. split; intro Hin.
+    + apply assoc_In. rewrite <- He. apply assoc_NoDup; assumption.
+    + apply assoc_In. rewrite He. apply assoc_NoDup; assumption.
+Qed.
+
+Lemma rows_differ r1 r2 : NoDup (map fst r1) -> NoDup (map fst r2) -> sort_row r1 <> sort_row r2 ->
+  exists a, assoc a r1 <> assoc a r2.
+Proof.
+  intros H1 H2 Hne.
+  destruct (existsb (fun a => negb (eqb_opt word_eqb (assoc a r1) (assoc a r2))) (map fst r1 ++ map fst r2)) eqn:E.
+  - apply existsb_exists in E. destruct E as [a [_ Ha]]. exists a. intro Heq. rewrite Heq in Ha.
+    rewrite (eqb_ok_refl _ (eqb_opt_ok _ word_eqb_spec)) in Ha. discriminate.
+  - exfalso. apply Hne. apply sort_row_ext; [exact H1|exact H2|]. intro a.
+    destruct (in_dec Nat.eq_dec a (map fst r1 ++ map fst r2)) as [Hin|Hn].
+    + assert (Hf : negb (eqb_opt word_eqb (assoc a r1) (assoc a r2)) = false).
+      { destruct (negb (eqb_opt word_eqb (assoc a r1) (assoc a r2))) eqn:Eb; [|reflexivity].
+        assert (existsb (fun a => negb (eqb_opt word_eqb (assoc a r1) (assoc a r2))) (map fst r1 ++ map fst r2) = true);
+          [|congruence]. apply existsb_exists. exists a. split; assumption. }
+      apply negb_false_iff in Hf. apply (eqb_opt_ok _ word_eqb_spec) in Hf. exact Hf.
+    + assert (assoc a r1 = None) by (apply assoc_None; intro; apply Hn; apply in_or_app; left; assumption).
+      assert (assoc a r2 = None) by (apply assoc_None; intro; apply Hn; apply in_or_app; right; assumption).
+      congruence.
+Qed.
+
+Lemma pre_snoc_cases (y x : word) a : pre y (x ++ [a]) -> pre y x \/ y = x ++ [a].
+Proof.
+  intro H. destruct (pre_app_split _ _ _ H) as [H1|[z1 [Hne [[t Ht] ->]]]]; [left; exact H1|right].
+  destruct z1 as [|c z1]; [contradiction|]. simpl in Ht. inversion Ht; subst. destruct z1; [reflexivity|discriminate].
+Qed.
+
+Definition weq_dec (x y : word) : {x = y} + {x <> y} := list_eq_dec Nat.eq_dec x y.
